@@ -91,6 +91,13 @@ func tag(rev, num int) int { return rev*1000 + num }
 
 func streamData(rev, num int, big bool) []byte {
 	s := []byte(fmt.Sprintf("data-r%dn%d", rev, num))
+	switch (rev + num) % 4 {
+	case 1:
+		// the data themselves begin with an end-of-line byte (the one behind "stream" is not theirs, §7.3.8.1)
+		s = append([]byte("\n"), s...)
+	case 2:
+		s = append([]byte("\r\n"), append(s, '\n')...)
+	}
 	if big {
 		// longer than a 4 KiB read-ahead buffer
 		s = append(s, bytes.Repeat([]byte(fmt.Sprintf(" r%dn%d", rev, num)), 900)...)
